@@ -65,6 +65,9 @@ def _composites(tier):
         ("struct", [["sig", ("const", "ab")], ["len", ("rebuildlen", I8, "body")], ["body", ("bytesctx", "len", None)]]),
         ("struct", [["w", I8], ["v", ("bytesintctx", "w", True)], ["t", I8]]), ("struct", [["w", I8], ["v", ("bytesintctx", "w", False)]]),
         ("adapt", I8, "inc"), ("adapt", I8, "xor"), ("adapt", ("fmt", "Int16sb"), "cls"), ("struct", [["n", ("adapt", I8, "inc")], ["d", ("bytesctx", "n", 3)]]),
+        ("mapping", I8, [[None, 255], [False, 0], [True, 1]]), ("mapping", I8, [["", 0], [0, 7]]),
+        ("seq", [("nullterminated", ("greedybytes", 2), "00", True, False, True), ("greedybytes", 1)]), ("seq", [("nullterminated", ("greedybytes", 1), "00", False, False, True), I8]),
+        ("struct", [["s", ("nullterminated", ("greedybytes", 1), "ff", True, True, True)], ["t", I8]]),
         ("optional", ("struct", [["a", I8], ["b", I8]])), ("seq", [I8, ("optional", ("struct", [["a", ("fmt", "Int16ub")], ["b", I8]])), I8]),
         ("select", [("struct", [["a", ("fmt", "Int32ub")], ["b", I8]]), ("struct", [["a", I8]])]), ("prefixed", I8, ("optional", ("struct", [["a", I8], ["b", I8]])), False),
         ("seq", [I8, V, ("flag",)]),
